@@ -1644,7 +1644,7 @@ def calculate_joint_estimate(point_est, var_est, method):
 def targeting_step(y, a, py_a, py_n, pa1, pa0, splits):
     f = sm.families.family.Binomial()
     h1w = a / pa1
-    h0w = -(1 - a) / pa0
+    h0w = -((1 - a) / pa0)  # negate after dividing: unsigned 0/1 codes must not wrap
     haw = h1w + h0w
     py_o = a * py_a + (1 - a) * py_n
 
